@@ -7,7 +7,8 @@ VERIF = os.path.dirname(os.path.dirname(os.path.abspath(__file__)))
 
 TECH = 'Lean 4 theorem about an executable model + translator/correspondence tie to the source'
 
-RESOLVE_NOTE = ('Trusted: Lean kernel (axioms propext, Classical.choice, Quot.sound only), translate.py, the correspondence '
+RESOLVE_NOTE = ('Trusted: Lean kernel (axioms propext, Classical.choice, Quot.sound only), translate.py (a generated piece the '
+                'translator cannot read falls back to its reference model, tied by the gen_tie correspondence), the correspondence '
                 'harness and its generators; pysmiles (SMILES reading, correct_aromatic_rings) and networkx iteration order '
                 'enter the model as recorded parameters. ')
 
@@ -83,9 +84,13 @@ CLAIMED = {
                  'phase A builds meets these hypotheses for every base graph and template set with distinct keys and closed '
                  'bonds (phaseA_wellformed), which gives the count in the resolver\'s terms (C10_resolver_count: all '
                  'fragment copies together minus the merges); the template hypothesis is evaluated by the model on every '
-                 'template set the real reader produces (fragsWFb_iff). Tied to the code by exact differential '
+                 'template set the real reader produces (fragsWFb_iff). The bonds of the result, for every sequence of merges (C10_quotient_bonds): '
+                 'two different atoms of the squashed molecule are bonded exactly when some bond of the molecule before squashing joins '
+                 'an atom merged into the one with an atom merged into the other — the quotient by the merges, every bond of a removed '
+                 'atom inherited by the atom that stands for it (rep_cons: the representative map composes merge by merge; '
+                 'contract_adj: adjacency after one contraction; loop invariant QInv). Tied to the code by exact differential '
                  'execution on generated overlapping descriptions (incl. atoms shared by 3-4 fragments).'),
-        'note': RESOLVE_NOTE + 'The full quotient statement and the equivalence with disjoint descriptions are validated by the oracle (partial).',
+        'note': RESOLVE_NOTE + 'Which of two parallel bonds keeps its order, and the equivalence with disjoint descriptions, are validated by correspondence and oracle (partial).',
         'design': '§7 C10',
     },
     'C11': {
@@ -113,7 +118,8 @@ CLAIMED = {
 }
 
 READ_NOTE = ('Trusted: Lean kernel (axioms propext, Classical.choice, Quot.sound only), translate.py (tables, dialect signatures, '
-             'leaf functions regenerated each run), the correspondence harness and its generators; modelled external: '
+             'leaf functions regenerated each run; a piece it cannot read falls back to its reference model, tied by the gen_tie '
+             'correspondence), the correspondence harness and its generators; modelled external: '
              're.finditer for the one node pattern, inspect.Signature.bind for the two signatures, float() on the decimal grammar. ')
 
 CLAIMED.update({
